@@ -162,7 +162,7 @@ def shapes(seed, thorough):
 
 def enum_part(ctx, binary, thorough):
     sh = shapes(ctx.seed, thorough)
-    res = ctx.run_engine(binary, "TestMigrationEnum", {"shapes": sh, "pairs": thorough}, timeout=2400)
+    res = ctx.run_engine(binary, "TestMigrationEnum", {"shapes": sh, "pairs": thorough, "readFaults": True}, timeout=2400)
     ctx.absorb(res, "migration", "TestMigrationEnum")
     ctx.coverage["enum_shapes"] = [s["name"] for s in sh]
     ctx.coverage["enum_interrupt_restart_sequences"] = res.get("replayed", 0)
